@@ -210,6 +210,7 @@ type HarnessResult struct {
 	EndMsgs     map[string]int
 	Wall        time.Duration
 	Inconcl     []string
+	TV          []string
 }
 
 func (e *Engine) findFunc(h *HarnessCfg) (*ssa.Function, error) {
@@ -351,6 +352,7 @@ func (e *Engine) runHarness(h *HarnessCfg, workers int) *HarnessResult {
 				for _, n := range res.Notes {
 					hr.Notes[n] = true
 				}
+				hr.TV = append(hr.TV, res.TV...)
 				work = append(work, res.Forks...)
 				if hr.Paths >= maxPaths {
 					stop = true
